@@ -15,6 +15,7 @@ import (
 	"verifharness/props/c16"
 	"verifharness/props/c17"
 	"verifharness/props/c18"
+	"verifharness/props/c19"
 	"verifharness/props/c21"
 	"verifharness/props/c22"
 	"verifharness/props/c23"
@@ -30,10 +31,13 @@ import (
 	"verifharness/props/c34"
 	"verifharness/props/c35"
 	"verifharness/props/c36"
+	"verifharness/props/c37"
 	"verifharness/props/c38"
 )
 
 var checks = map[string]driver.Check{
+	"C37": {Level: "exploration", Fn: c37.Run},
+	"C19": {Level: "exploration", Fn: c19.Run},
 	"C03": {Level: "exploration", Fn: c03.Run},
 	"C16": {Level: "fault_enumeration", Fn: c16.Run},
 	"C36": {Level: "exploration", Fn: c36.Run},
